@@ -2047,6 +2047,11 @@ func runC05(tier string, seed uint64, out *Out) {
 	if tier != "quick" {
 		nStream, nMulti, nTie = 12000, 40000, 60000
 	}
+	// a call that is serialised, re-located (SetRegion, as after a split or move) and serialised again
+	// names its new region — for every call kind, in the protobuf and in the cellblock form
+	for _, l := range relocCases() {
+		out.Line("%s", l)
+	}
 	parallelLines(nMulti, 8, out, func(i int) string { return runMultiCase(seed, i) })
 	parallelLines(nStream, 8, out, func(i int) string { return runStreamCase(genStreamCase(seed, i, tier)) })
 	// the structure ties last: they can only report DIFF, and the runner keeps the first 200
@@ -2414,4 +2419,62 @@ func runTieCase(seed uint64, i int) (line string) {
 			hx([]byte("org.apache.hadoop.hbase.filter.BinaryComparator")) + ":" + hx(ser)
 	}
 	return "c05 mutate " + fields + " " + rMutatePB(m)
+}
+
+func relocCases() []string {
+	r1 := region.NewInfo(1, nil, []byte("t"), []byte("t,,1.parent."), nil, nil)
+	r2 := region.NewInfo(2, nil, []byte("t"), []byte("t,,2.daughter."), nil, []byte("m"))
+	ctx := context.Background()
+	vals := map[string]map[string][]byte{"f": {"q": []byte("v")}}
+	mk := map[string]func() hrpc.Call{
+		"get":  func() hrpc.Call { c, _ := hrpc.NewGetStr(ctx, "t", "k"); return c },
+		"put":  func() hrpc.Call { c, _ := hrpc.NewPutStr(ctx, "t", "k", vals); return c },
+		"del":  func() hrpc.Call { c, _ := hrpc.NewDelStr(ctx, "t", "k", vals); return c },
+		"app":  func() hrpc.Call { c, _ := hrpc.NewAppStr(ctx, "t", "k", vals); return c },
+		"inc":  func() hrpc.Call { c, _ := hrpc.NewIncStrSingle(ctx, "t", "k", "f", "q", 1); return c },
+		"scan": func() hrpc.Call { c, _ := hrpc.NewScanStr(ctx, "t"); return c },
+		"cas": func() hrpc.Call {
+			p, _ := hrpc.NewPutStr(ctx, "t", "k", vals)
+			c, _ := hrpc.NewCheckAndPut(p, "f", "q", []byte("x"))
+			return c
+		},
+	}
+	specOf := func(m proto.Message) []byte {
+		switch x := m.(type) {
+		case *pb.GetRequest:
+			return x.GetRegion().GetValue()
+		case *pb.MutateRequest:
+			return x.GetRegion().GetValue()
+		case *pb.ScanRequest:
+			return x.GetRegion().GetValue()
+		}
+		return nil
+	}
+	var out []string
+	for _, kind := range []string{"get", "put", "del", "app", "inc", "scan", "cas"} {
+		for _, form := range []string{"pb", "cb"} {
+			c := mk[kind]()
+			ser := func() []byte {
+				if s, ok := c.(interface {
+					SerializeCellBlocks([][]byte) (proto.Message, [][]byte, uint32)
+				}); ok && form == "cb" {
+					m, _, _ := s.SerializeCellBlocks(nil)
+					return specOf(m)
+				}
+				return specOf(c.ToProto())
+			}
+			c.SetRegion(r1)
+			first := ser()
+			c.SetRegion(r2)
+			second := ser()
+			res := "ok"
+			if !bytes.Equal(first, r1.Name()) {
+				res = "first-wrong"
+			} else if !bytes.Equal(second, r2.Name()) {
+				res = "stale"
+			}
+			out = append(out, fmt.Sprintf("c05 reloc %s %s %s", kind, form, res))
+		}
+	}
+	return out
 }
